@@ -169,10 +169,10 @@ class C19(core.Prop):
             inp['placed'] = {str(n): list(v.xs) for n, v in (PLACE.placed or {}).items()}
             # stub contract: the placement has a positive mean bond length
             if r[0] == 'ok':
-                return ('ok', {str(n): list(v.xs) for n, v in r[1].items()})
+                return ('ok', {str(n): (list(v.xs) if isinstance(v, SymVec) else [float(x) for x in v]) for n, v in r[1].items()})
             return r
         # real code, same stubs, concrete rational placement
-        placed = {n: np.array([float(x) for x in inp['placed'][str(n)]]) for n in g.nodes}
+        placed = {n: np.array([float(x) for x in (inp['placed'] or {}).get(str(n), [0.0, 0.0])]) for n in g.nodes}
         o1, o2 = nx.fruchterman_reingold_layout, nx.kamada_kawai_layout
         nx.fruchterman_reingold_layout = lambda graph, **kw: {n: v.copy() for n, v in placed.items()}
         nx.kamada_kawai_layout = lambda graph, **kw: {n: v.copy() for n, v in placed.items()}
@@ -228,6 +228,14 @@ class C19(core.Prop):
                 cl.append(('position_is_placement_times_common_factor',
                            band(*[gg.val_eq(ret[str(n)][c], placed[str(n)][c] * F) for c in range(2)])))
             cl.append(('lemmas_hold', all(v == 'unsat' for k, v in self._lemmas.items() if not k.startswith('_'))))
+            return cl
+        if not placed:
+            # the code returned positions without consulting the placement: they must already be at the requested scale
+            tot = 0.0
+            for a, b in g.edges:
+                pa, pb = ret[str(a)], ret[str(b)]
+                tot += ((pa[0] - pb[0]) ** 2 + (pa[1] - pb[1]) ** 2) ** 0.5
+            cl.append(('mean_bond_length_is_default_bond', gg.val_eq(inp['bond'], tot / g.number_of_edges())))
             return cl
         # concrete replay: mean bond length of the returned positions equals default_bond
         tot = 0.0
